@@ -150,11 +150,61 @@ let do_op (ctx : ctx) (pp : ppacket) (o : op) (label : string) : string =
     (match r with None -> label ^ "=-" | Some (t, c) -> Printf.sprintf "%s=%d/%d" label (int_of_n t) (int_of_n c))
   | Ok (OutObs l) -> Printf.sprintf "W[%s]" (String.concat " " (List.map show_obs l))
 
+(* facade walk plans: N<hextext>:<zone> (set_name) is set_raw_name of the converted name *)
+let facade_plan (plan : string) : string =
+  String.concat "/"
+    (List.map
+       (fun part ->
+         let star, body = if String.length part > 0 && part.[0] = '*' then ("*", String.sub part 1 (String.length part - 1)) else ("", part) in
+         star
+         ^ String.concat "."
+             (List.map
+                (fun a ->
+                  if String.length a > 0 && a.[0] = 'N' then begin
+                    match split_on ':' (String.sub a 1 (String.length a - 1)) with
+                    | [txt; zone] ->
+                      let z = if zone = "-" then None else Some (unhex zone) in
+                      (match raw_name_from_str (unhex txt) z with
+                       | Ok raw -> "M" ^ hex raw
+                       | _ -> "M" ^ "c00c")   (* a name conversion error surfaces as M=ERR *)
+                    | _ -> a
+                  end else a)
+                (split_on '.' body)))
+       (split_on '/' plan))
+
 let get (r : 'a res) : 'a =
   match r with Ok a -> a | Err _ -> failwith "unexpected Err in getter" | Panic s -> raise (Model_panic (int_of_n s))
 
-let run_obj_op (ctx : ctx) (pp : ppacket) (f : string array) : string =
+let rec run_obj_op (ctx : ctx) (pp : ppacket) (f : string array) : string =
   match f.(0) with
+  | "F" ->
+    (* facade op: in the model each table entry IS the native operation (facade_refines_native) *)
+    let g = Array.sub f 1 (Array.length f - 1) in
+    (match g.(0) with
+     | "g" -> run_obj_op ctx pp [| "fg" |]
+     | "W" -> run_obj_op ctx pp [| "W"; g.(1); "0"; (if Array.length g > 2 then facade_plan g.(2) else "*") |]
+     | "b" ->
+       if Array.length g > 1 && int_of_string g.(1) < List.length pp.pp_packet then "b=TOOBIG" else "b=" ^ hex pp.pp_packet
+     | "Z" -> on_res (raw_name_from_str (unhex g.(1)) None) (fun v -> "OK:" ^ hex v)
+     | _ -> run_obj_op ctx pp g)
+  | "fg" ->
+    Printf.sprintf "fg[fl=%d rc=%d op=%d]" (int_of_n (get (pp_flags pp))) (int_of_n (get (pp_rcode pp)))
+      (int_of_n (get (pp_opcode pp)))
+  | "fq" ->
+    (match do_op ctx pp OQuestion "q2" with
+     | "q2=-" -> "fq=-"
+     | s ->
+       (* q2=<name>/<type>/<class> -> fq=<name>/<type> *)
+       (match split_on '/' (String.sub s 3 (String.length s - 3)) with
+        | [n; t; _] -> Printf.sprintf "fq=%s/%s" n t
+        | _ -> s))
+  | "we" ->
+    (match do_op ctx pp OWalkEdns "" with
+     | s when String.length s >= 3 && String.sub s 0 2 = "W[" ->
+       let body = String.sub s 2 (String.length s - 3) in
+       let n = if body = "" then 0 else List.length (split_on ' ' body) in
+       Printf.sprintf "we=%d" n
+     | s -> s)
   | "b" -> "b=" ^ hex pp.pp_packet
   | "v" -> Printf.sprintf "v[%s]" (view pp)
   | "fp" ->
